@@ -33,7 +33,14 @@ func MakeFromRequest(r *http.Request) CacheKey {
 	}
 	normHost := strings.ToLower(r.Host)
 	normPath := path.Clean(r.URL.Path)
-	stringKey := fmt.Sprintf("%s|%s|%s|%s|%s", scheme, r.Method, normHost, normPath, r.URL.RawQuery)
+	// path.Clean drops a trailing slash, but "/dir/" and "/dir" are different resources.
+	rawPath := r.URL.Path
+	if normPath != "/" && (strings.HasSuffix(rawPath, "/") || strings.HasSuffix(rawPath, "/.") || strings.HasSuffix(rawPath, "/..")) {
+		normPath += "/"
+	}
+	// The variable components are length-prefixed so that a separator character inside
+	// one of them cannot shift the component boundaries.
+	stringKey := fmt.Sprintf("%s|%d:%s|%d:%s|%d:%s|%s", scheme, len(r.Method), r.Method, len(normHost), normHost, len(normPath), normPath, r.URL.RawQuery)
 	slog.Debug("Creating cache key", "key", stringKey)
 	return FromString(stringKey)
 }
